@@ -1,6 +1,6 @@
 SPECIFICATION Spec
 CONSTANT MaxCuts = 3
-CONSTANT DocIds = {"d1", "d2", "d3", "d4", "d5", "d6", "d7", "d8", "d9"}
+CONSTANT DocIds = {"d1", "d2", "d3", "d4", "d5", "d6", "d7", "d8", "d9", "d10"}
 INVARIANT Transparent
 INVARIANT CatalogSame
 ACTION_CONSTRAINT Emit
